@@ -20,6 +20,31 @@ THEOREMS = ["no_write_before_output", "failure_leaves_file", "success_writes_onc
 
 
 
+LINKS: set = set()      # paths that are symbolic links to the real file: signing "in place" goes through the link and leaves it a link
+
+
+def put(path, data):
+    if path in LINKS:
+        real = path + ".real"
+        if not os.path.islink(path):
+            if os.path.lexists(path):
+                os.unlink(path)
+            os.symlink(real, path)
+        with open(real, "wb") as f:
+            f.write(data)
+    else:
+        if os.path.islink(path):
+            os.unlink(path)
+        with open(path, "wb") as f:
+            f.write(data)
+
+
+def get(path):
+    if path in LINKS and not os.path.islink(path):
+        return b"<the symbolic link was replaced or removed> " + (open(path, "rb").read() if os.path.exists(path) else b"<missing>")
+    return open(path, "rb").read() if os.path.exists(path) else b"<missing>"
+
+
 class FinalReady:
     """probe for "the result has been fully serialized": patches json.JSONEncoder.encode (which json.dumps and encoder objects go through) and
     notes when a call returns exactly the text of the document that a successful run writes.  Independent of how the library organises its code."""
@@ -98,10 +123,12 @@ def _run(ck: Check, probe) -> None:
             doc = rand_doc(rng)
         k = gen.key(rng.randrange(10))
         fn = os.path.join(d, f"c18-{di}.json")
+        if di % 4 == 3:
+            LINKS.add(fn)           # this document is reached through a symbolic link
         orig = gen.oracle_bytes(doc) if di % 2 else (proto_json(doc))
         def call():
             impl.signing.sign_all_in_repodata(fn, k.seed.hex())
-        open(fn, "wb").write(orig)
+        put(fn, orig)
         probe.arm(None)
         with impl.quiet_stdout():
             exc, nevents, log = faults.run_traced(call, fn, pkg)
@@ -109,15 +136,15 @@ def _run(ck: Check, probe) -> None:
         if exc is not None:
             ck.violation("signing a well-formed repodata file failed", {"error": repr(exc)[:300]}, "c18-baseline-failed")
             continue
-        signed = open(fn, "rb").read()
+        signed = get(fn)
         # the same run again, now knowing the result: when is the target first touched, and was the result complete by then?
-        open(fn, "wb").write(orig)
+        put(fn, orig)
         probe.arm(signed)
         with impl.quiet_stdout():
             exc, nevents, log = faults.run_traced(call, fn, pkg)
         ck.oracle_checks += 1
         t = faults.touches(log)
-        if exc is not None or open(fn, "rb").read() != signed or not t or not faults.reads(log):
+        if exc is not None or get(fn) != signed or not t or not faults.reads(log):
             ck.violation("a repeated run on the same file does not read it, produce the same result and write it", {"events": log, "error": repr(exc)[:200]}, "c18-open-sequence")
             continue
         blind = not probe.ready      # the library does not produce its result through the json encoder: "complete by then" cannot be observed this way
@@ -136,14 +163,14 @@ def _run(ck: Check, probe) -> None:
         else:
             ck.exhaustive = True
         for p in points:
-            open(fn, "wb").write(orig)
+            put(fn, orig)
             probe.arm(signed)
             with impl.quiet_stdout():
                 exc, _, log2 = faults.run_traced(call, fn, pkg, fault_at=p)
             ck.evaluations += 1
             total_points += 1
             ck.oracle_checks += 1
-            after = open(fn, "rb").read()
+            after = get(fn)
             verdict = judge(log2, after, orig, exc is not None, blind)
             if verdict == "early" or verdict == "modified-unobserved":
                 ck.violation("a failure before the output phase left a modified (partially signed / truncated) file, or the output was touched before the result was complete",
@@ -164,7 +191,7 @@ def _run(ck: Check, probe) -> None:
             return real_cs(obj)
         impl.common.canonserialize = impl.signing.canonserialize = counting
         try:
-            open(fn, "wb").write(orig)
+            put(fn, orig)
             probe.arm(signed)
             with impl.quiet_stdout():
                 faults.run_traced(call, fn, pkg)
@@ -172,7 +199,7 @@ def _run(ck: Check, probe) -> None:
             impl.common.canonserialize = impl.signing.canonserialize = real_cs
         total_ser = ncalls[0]
         for j in range(1, total_ser + 1):
-            open(fn, "wb").write(orig)
+            put(fn, orig)
             cnt = [0]
             def failing_cs(obj, _j=j):
                 cnt[0] += 1
@@ -190,7 +217,7 @@ def _run(ck: Check, probe) -> None:
             if not isinstance(exc, MemoryError):
                 continue            # the library did not route this serialization through the patched name: nothing was injected
             ck.oracle_checks += 1
-            if open(fn, "rb").read() != orig or faults.touches(logs):
+            if get(fn) != orig or faults.touches(logs):
                 ck.violation("a failure while serializing (artifact metadata or the final document) left a truncated / modified file: the output was opened before the result was serialized",
                              {"serializer_call": j, "of": total_ser, "opens": logs, "error": repr(exc)[:120]}, "c18-serialize-fault-modified:" + ("final" if j == total_ser else "artifact"))
                 break
@@ -198,7 +225,7 @@ def _run(ck: Check, probe) -> None:
         # faults raised from inside the key's sign() at the j-th artifact
         nart = len(doc["packages"]) + len(doc.get("packages.conda", {}))
         for j in range(1, nart + 1):
-            open(fn, "wb").write(orig)
+            put(fn, orig)
             calls = [0]
             real = impl.signing.serialize_and_sign
 
@@ -218,7 +245,7 @@ def _run(ck: Check, probe) -> None:
             if not (isinstance(exc, RuntimeError) and "unplugged" in str(exc)):
                 continue            # the library did not go through the patched name: nothing was injected
             ck.oracle_checks += 1
-            if open(fn, "rb").read() != orig or faults.touches(log3):
+            if get(fn) != orig or faults.touches(log3):
                 ck.violation("an error while signing the j-th artifact left a modified file", {"artifact_index": j, "of": nart, "opens": log3}, "c18-sign-fault-modified")
             ck.nontrivial_add((di, "sign", j))
     ck.count("fault-points", total_points)
@@ -267,7 +294,7 @@ def _run(ck: Check, probe) -> None:
             ("conda-not-dict", gen.oracle_bytes({"packages": {"a": 1}, "packages.conda": 5}), gen.key(1).seed.hex()), ("top-list", b"[1]", gen.key(1).seed.hex()),
             ("bad-key-short", good, "ab" * 31), ("bad-key-upper", good, ("AB" * 32)), ("bad-key-kind", good, None), ("bad-key-bytes", good, gen.key(1).seed), ("empty-file", b"", gen.key(1).seed.hex())]
     for name, content, key in bads:
-        open(fn, "wb").write(content)
+        put(fn, content)
         with impl.quiet_stdout():
             exc, _, log = faults.run_traced(lambda: impl.signing.sign_all_in_repodata(fn, key), fn, pkg)
         ck.evaluations += 1
@@ -275,7 +302,7 @@ def _run(ck: Check, probe) -> None:
         ck.count("malformed:" + name + ":" + (type(exc).__name__ if exc else "no-error"))
         if exc is None:
             ck.violation("signing malformed input / with a bad key did not fail", {"case": name}, "c18-malformed-accepted:" + name)
-        if open(fn, "rb").read() != content:
+        if get(fn) != content:
             ck.violation("a call that failed on malformed input or a bad key modified the file", {"case": name, "error": repr(exc)[:200]}, "c18-malformed-modified:" + name)
         # the model's run on the same malformed input: failed, file untouched, same opens
         if isinstance(key, (str, type(None))):
@@ -301,39 +328,39 @@ def _run(ck: Check, probe) -> None:
                 os.unlink(fn + suffix)
     try:
         for name, content, key in bads[:6]:
-            open(fn, "wb").write(content)
+            put(fn, content)
             plant()
             with impl.quiet_stdout():
                 exc, _, log = faults.run_traced(lambda: impl.signing.sign_all_in_repodata(fn, key), fn, pkg)
             ck.evaluations += 1
             ck.oracle_checks += 1
-            if open(fn, "rb").read() != content:
+            if get(fn) != content:
                 ck.violation("a failing call modified the file when stale sibling files (partial / temporary / backup) were present", {"case": name, "error": repr(exc)[:200]}, "c18-sibling-modified:" + name)
-        open(fn, "wb").write(good)
+        put(fn, good)
         unplant()
         with impl.quiet_stdout():
             impl.signing.sign_all_in_repodata(fn, gen.key(1).seed.hex())
-        clean_result = open(fn, "rb").read()
-        open(fn, "wb").write(good)
+        clean_result = get(fn)
+        put(fn, good)
         plant()
         with impl.quiet_stdout():
             impl.signing.sign_all_in_repodata(fn, gen.key(1).seed.hex())
         ck.oracle_checks += 1
-        if open(fn, "rb").read() != clean_result:
+        if get(fn) != clean_result:
             ck.violation("the result of signing depends on stale sibling files next to the target", {}, "c18-sibling-influence")
     finally:
         unplant()
     # the CLI aborts before touching the file on a bad key
     kf = os.path.join(d, "c18-key.txt")
     for name, text in [("bad", "not a key"), ("short", "ab" * 31), ("empty", "")]:
-        open(fn, "wb").write(good)
+        put(fn, good)
         open(kf, "w").write(text)
         with impl.quiet_stdout():
             from conda_content_trust import cli as climod
             exc, _, log = faults.run_traced(lambda: climod.cli_sign_artifacts(types.SimpleNamespace(repodata_fname=fn, private_key_fname=kf)), fn, pkg)
         ck.evaluations += 1
         ck.oracle_checks += 1
-        if open(fn, "rb").read() != good or faults.touches(log):
+        if get(fn) != good or faults.touches(log):
             ck.violation("the CLI touched the repodata file although the key file was rejected", {"key_file": name, "opens": log}, "c18-cli-bad-key")
     # GPG path: load, sign in memory, write — faults at every line, from the signer, and a missing optional dependency
     k = gen.key(2)
@@ -403,7 +430,8 @@ def _run(ck: Check, probe) -> None:
                     ck.mismatches.append({"corr": "corr:in-place-signing/open-sequence+file-bytes", "line": ln[:600], "impl": bad, "model": ans[:300], "tag": "gpg-steps", "meta": {}, "stdout_encoding": "utf-8"})
         for label, setup in (("signer-error", lambda: gpgshim.FAIL_NEXT.append(ValueError("gpg: signing failed: No secret key"))),
                              ("signer-oserror", lambda: gpgshim.FAIL_NEXT.append(OSError("gpg not found"))),
-                             ("unknown-fingerprint", None), ("no-dependency", None), ("bad-fingerprint", None)):
+                             ("unknown-fingerprint", None), ("no-dependency", None), ("bad-fingerprint", None),
+                             ("fingerprint-list", None), ("fingerprint-list-trailing-comma", None), ("fingerprint-list-spaces", None)):
             open(mfn, "wb").write(orig)
             f = fpr
             if setup:
@@ -412,6 +440,12 @@ def _run(ck: Check, probe) -> None:
                 f = "00" * 20
             if label == "bad-fingerprint":
                 f = "XYZ"
+            if label == "fingerprint-list":                 # one argument is one fingerprint: "a,b" is malformed as a whole, nothing is signed
+                f = fpr + "," + "00" * 20
+            if label == "fingerprint-list-trailing-comma":
+                f = fpr + ","
+            if label == "fingerprint-list-spaces":
+                f = fpr + " " + "XYZ"
             if label == "no-dependency":
                 impl.root_signing.SSLIB_AVAILABLE = False
             try:
